@@ -95,6 +95,27 @@ def templates():
                     pre, lp = loops(lk, body, 2)
                     run = ("fndecl", "run", [], INT, pre + [lp, mark(11), ("return", I(7))])
                     out.append([LOG, idu(U), run, ("set", "r", ("call", V("run"), [])), ("tuple", [V("r"), ("pre", "deref", V("log"))])])
+    # a ONE-PASS inner loop (`loop { ..; break }` / `while true { ..; break }`) holding another signal at some depth of
+    # non-loop constructs: that signal still belongs to the inner loop, whatever the folder makes of the trailing `break`
+    for lk in ("loop", "while", "whileset", "for"):
+        for inner in ("loop", "whiletrue"):
+            for wk in ("direct", "block", "else", "ifset", "arm", "valarm"):
+                for sig in ("break", "continue"):
+                    tries = ("set", "tries", ("mut", INT, I(0)))
+                    guard = ("if", ("bin", "gt", ("pre", "deref", V("tries")), I(2)), ("block", [("break",)]), None)
+                    ibody = [("assign", "add", V("tries"), I(1)), guard, mark(3)] + wrap(wk, (sig,), 2) + [mark(4), ("break",)]
+                    ilp = ("loop", ("block", ibody)) if inner == "loop" else ("while", ("true",), ("block", ibody))
+                    body = [mark(1), tries, ilp, mark(2)]
+                    pre, lp = loops(lk, body, 3)
+                    run = ("fndecl", "run", [], INT, pre + [lp, mark(11), ("return", I(7))])
+                    out.append([LOG, idu(U), run, ("set", "r", ("call", V("run"), [])), ("tuple", [V("r"), ("pre", "deref", V("log"))])])
+    # the same at top level (no enclosing function) and without an enclosing loop: the signal must not escape
+    for inner in ("loop", "whiletrue"):
+        for sig in ("break", "continue"):
+            ibody = [("assign", "add", V("tries"), I(1)), ("if", ("bin", "gt", ("pre", "deref", V("tries")), I(2)), ("block", [("break",)]), None),
+                     mark(3), ("if", ("bin", "eq", ("pre", "deref", V("tries")), I(1)), ("block", [(sig,)]), None), mark(4), ("break",)]
+            ilp = ("loop", ("block", ibody)) if inner == "loop" else ("while", ("true",), ("block", ibody))
+            out.append([LOG, ("set", "tries", ("mut", INT, I(0))), ilp, ("tuple", [("pre", "deref", V("tries")), ("pre", "deref", V("log"))])])
     # if / else selection and value
     for c in (("true",), ("false",)):
         for has_else in (True, False):
